@@ -2,7 +2,7 @@
 from . import core
 
 PROP_FILE = 'Properties/C07.v'
-THEOREMS = ['C07_directive_marks_next_sibling', 'C07_no_format_is_children_pass', 'C07_mark_keeps_text', 'C07_expr_verbatim', 'C07_pattern_verbatim', 'C07_math_verbatim', 'C07_code_body_verbatim']
+THEOREMS = ['C07_directive_marks_next_sibling', 'C07_no_format_is_children_pass', 'C07_mark_keeps_text', 'C07_expr_verbatim', 'C07_pattern_verbatim', 'C07_math_verbatim', 'C07_code_body_verbatim', 'C07_verbatim_atom_reaches_output']
 
 
 def run(tier, seed, replay=None):
